@@ -260,6 +260,25 @@ def handleRI (toks : List String) : String :=
 
 def handle : List String → String
   | "seq" :: toks => handleCC toks
+  | ["chan", name, cap] =>
+    -- C03: results are delivered without waiting for the caller: every kind of call needs a
+    -- result channel with room for one result
+    if cap = "cap=0" then s!"SPEC key=unbuffered-result-channel call={name} (a delivery to a caller that gave up blocks the failure transition)"
+    else s!"OK tags=cc,chan,{name}"
+  | ["dialclose", mode, dial, done, connClosed, later] =>
+    -- C03/C19/C20: Close (or the end of the dial context) while the dialer is still connecting
+    if mode = "close" then
+      if done ≠ "done=true" then "SPEC key=close-during-dial-ignored (the client is still alive after Close)"
+      else if dial ≠ "dial=err" then s!"SPEC key=dial-succeeds-on-closed-client {dial}"
+      else if connClosed ≠ "connclosed=true" then "SPEC key=connection-left-open-after-close-during-dial"
+      else if later ≠ "later=connErr" then s!"SPEC key=not-refused-after-close-during-dial {later}"
+      else "OK tags=cc,dialclose,close"
+    else
+      -- the dial context ended: in service with the connection, or failed with the connection closed
+      if done = "done=true" && connClosed ≠ "connclosed=true" then
+        "SPEC key=connection-leaked-by-failed-dial (the dial was abandoned, the connection it produced stays open)"
+      else if done = "done=false" && connClosed = "connclosed=true" then "SPEC key=live-client-on-closed-connection"
+      else s!"OK tags=cc,dialclose,ctx,{done}"
   | ["dial", callers, during, total, failed, open_] =>
     -- C20: the regionserver is dialled once per connection object, whatever the number of
     -- concurrent first users (real region.NewClient; harness/cc.go dialOnceScenario)
